@@ -4,7 +4,9 @@
 // ASSUMPTION (listed in the header of slices/depot_ops.vs).  env/depot_usage_shim.vs cannot be included next to
 // env/schedule_shim.vs (both declare the module `im_set` and the type `Vehicle`) nor next to env/sched_guard_shim.vs
 // (both declare `keys()` of im::HashMap), so the pieces of it that are needed here are COPIED (text unchanged):
-// the methods of im::HashSet, `Entry` / `entry` / `or_insert`, and the depot-usage vocabulary.
+// the methods of im::HashSet, `Entry` / `entry` / `or_insert`, and the depot-usage vocabulary.  NEW assumptions of this file:
+// im::HashMap::get_mut (A-im) and the uninterpreted `spec_new_fast` (what Transition::new_fast builds).  Everything else is open
+// spec functions and proved lemmas.
 
 // ---- A-im (copied from env/depot_usage_shim.vs): methods of im::HashSet --------------------------------
 impl<T> self::im_set::HashSet<T> {
